@@ -321,12 +321,15 @@ class Initializers(Facet):
                 )
                 return
             rec.sample({"spec": spec_str(case["spec"]), "init": name, "max_depth": d, "reused": bool(case.get("reuse"))})
-            for ind in inds:
+            for pos, ind in enumerate(inds):
                 p = ind.get_phenotype()
                 dep = safe_depth(p, w.info)
                 if dep > d:
+                    # PositionIndependentGrowInitializer yields target//2 programs of its GrowInitializer
+                    # first, then the rest from its FullInitializer (whose overshoot is a recorded finding)
+                    half = "" if kind != "pigrow" else ("/grow-half" if pos < case["n"] // 2 else "/full-half")
                     rec.fail(
-                        f"C03/depth-exceeded/initializer-{kind}",
+                        f"C03/depth-exceeded/initializer-{kind}{half}",
                         f"{name}(max_depth={d}){' (object used before on another grammar)' if case.get('reuse') else ''} produced depth {dep}: {canon_str(safe_canon(p, w.info))}; grammar {spec_str(case['spec'])}",
                     )
                 if dep == d:
